@@ -148,6 +148,12 @@ func guardRaws(r *Rng) []int64 {
 			raws[i] = errRaw // the client call fails here
 			continue
 		}
+		if r.Chance(1, 15) {
+			// the ends of int64 and zero (the value at which the guard is switched off)
+			v = r.PickI64(1<<63-1, -(1<<63)+1, 1<<62, 0, 1)
+			raws[i] = v
+			continue
+		}
 		switch r.Intn(8) {
 		case 0:
 			v -= int64(r.Range(0, 4)) // a counter that was reset or restored from a backup
